@@ -1,0 +1,42 @@
+//go:build verif
+
+// Contracts for the verification framework in /verif (comment-only file; it is
+// compiled only with -tags verif and contributes no code). Syntax: CONTRACTS.md.
+
+package antispoof
+
+// ---- manager.go: what the control plane writes is what the kernel program reads (C18) ----
+//
+// bpf/antispoof.c compares the IPv4 source address of a frame, loaded as a
+// 32-bit word from the frame bytes (network order in memory), with
+// subscriber_binding.ipv4_addr, and looks the same word up in the LPM trie.
+// cilium/ebpf marshals map keys and values in native byte order, so the word the
+// control plane stores must have the address bytes in network order IN MEMORY:
+// on the little-endian hosts the kernel programs are verified for (x86_64) that
+// is the little-endian composition of the four address bytes. The binding key is
+// the MAC composed most-significant byte first, as mac_to_u64 does in C. These
+// are the value layouts the C18 specification (/verif/spec/bpf/antispoof_ingress.vspec) reads.
+
+//@ type Manager
+//@   owns subscribersMu: subscribers
+
+//@ func macToUint64
+//@   requires len(mac) >= 6
+//@   modifies nothing
+//@   ensures result == mac[0]*1099511627776 + mac[1]*4294967296 + mac[2]*16777216 + mac[3]*65536 + mac[4]*256 + mac[5]
+
+//@ func (m *Manager) AddBinding
+//@   modifies m.subscribers
+//@   ensures err == nil ==> binding.Mode == old(m.mode)
+//@   ensures err == nil && len(ipv4) == 4 ==> binding.IPv4Valid == 1 && binding.IPv4Addr == ipv4[0] + 256*ipv4[1] + 65536*ipv4[2] + 16777216*ipv4[3]
+//@   ensures err == nil && ipv4 == nil ==> binding.IPv4Valid == 0
+//@   ensures err == nil ==> binding.IPv6Valid == 0
+//@   ensures err == nil ==> macKey == mac[0]*1099511627776 + mac[1]*4294967296 + mac[2]*16777216 + mac[3]*65536 + mac[4]*256 + mac[5]
+
+//@ func (m *Manager) AddAllowedRange
+//@   modifies nothing
+//@   ensures err == nil && len(network.IP) == 4 ==> key.IP == network.IP[0] + 256*network.IP[1] + 65536*network.IP[2] + 16777216*network.IP[3]
+
+//@ func (m *Manager) SetMode
+//@   modifies m.mode
+//@   ensures m.mode == mode
